@@ -325,20 +325,23 @@ func (b *c16Book) apply(w []string) (ok bool, idx int) {
 		}
 		return true, 0
 	case "defn":
+		// the scope is resolved once: "" / "Workbook" = workbook, otherwise an existing sheet
+		// (case-insensitive); the same name twice in one scope is a duplicate
 		name := "dn_" + w[1]
 		scope := unhx(w[2])
 		key := 0
-		if scope != "" && c16Valid(scope) {
-			if i := b.find(scope); i >= 0 {
-				key = b.ents[i].key
+		if scope != "" && scope != "Workbook" {
+			if !c16Valid(scope) {
+				return false, 0
 			}
+			i := b.find(scope)
+			if i < 0 {
+				return false, 0
+			}
+			key = b.ents[i].key
 		}
 		for _, d := range b.defs {
-			sn := ""
-			if d.key != 0 {
-				sn = b.ents[b.follow(d.key)].name
-			}
-			if sn == scope && d.name == name {
+			if d.key == key && d.name == name {
 				return false, 0
 			}
 		}
@@ -921,6 +924,7 @@ var c16Witnesses = [][]string{
 	{"reset", "new 42", "new 43", "vis 42 0 0", "vis 43 0 1", "act 1", "vis 536865657431 0 1", "vis 536865657431 0 0"},
 	{"reset", "new 42", "vis 42 0 0", "del 536865657431", "new 43", "del 536865657431"},
 	{"reset", "new 41", "new 42", "new 43", "defn 0 41", "defn 1 43", "defn 2 536865657431", "move 43 41", "move 536865657431 43", "move 41 536865657431", "del 42", "save"},
+	{"reset", "new 576f726b626f6f6b", "defn 0 576f726b626f6f6b", "defn 0 -", "defn 1 6e6f73756368", "new 61", "defn 2 41", "defn 2 61", "defn 2 -", "del 61", "defn 2 61"},
 	{"reset", "ren 536865657431 7368656574310a", "ren 536865657431 736865657431", "ren 736865657431 534845455431", "new 736865657431"},
 }
 
